@@ -88,3 +88,30 @@ Example C05_example :
                       ("b", JObj [("$binary", JObj [("base64", JStr "AAAAAAAAAAAAAAAAAAA="); ("subType", JStr "04")])]);
                       ("e", JStr "redacted@redacted.com"); ("s", JStr "R"); ("n", JNum "0"); ("t", JBool false)])])])]%string.
 Proof. vm_compute. reflexivity. Qed.
+
+(* ---------- field-name mode ---------- *)
+From Proofs Require Import TableFacts Survivors SurvivorsLine RfnSim RfnLine.
+
+(* With --redactFieldNames active for the line: in every query-bearing value of a command document, on clear index
+   paths, a leaf that is not a '$field' reference is unchanged or replaced by the constant placeholder of its class,
+   exactly as without the flag. *)
+Theorem C05_leafwise_fieldname_mode : forall tb cs c ins k v p leaf,
+  re c = None -> nodup_keys v -> sib_ok (real_actions cs c None) v ->
+  jget v p = Some leaf -> is_leaf leaf -> nd leaf -> clear tb v p = true ->
+  exists out, jget (cmd_member tb cs c (real_actions cs c None) true ins k v) p = Some out /\ placeholder_of cs c leaf out.
+Proof.
+  intros tb cs c ins k v p leaf Hre Hn Hs Hg Hl Hd Hc.
+  destruct (cmd_member_rfn_rel tb cs c (real_actions cs c None) (real_actions cs c None) Hre ins k v p leaf Hn Hs Hs Hg Hl Hd Hc)
+    as (d & Hok & _ & Hout).
+  eexists; split; [exact Hout|]. unfold placeholder_of.
+  destruct d; simpl in Hok |- *.
+  - left; reflexivity.
+  - destruct Hok as (s & -> & H). right; left. exists s. split; [reflexivity|]. simpl.
+    destruct H as [-> | [-> | [-> | [[-> E] | [-> E]]]]]; auto 10.
+  - destruct Hok as (Hn' & n & ->). right; right; left. exists n. auto.
+  - destruct Hok as (Hb & b & ->). right; right; right. exists b. auto.
+  - destruct Hok as (Hs' & s & ->). right; left. exists s. split; [reflexivity|]. simpl. auto 10.
+  - contradiction.
+  - destruct Hok as (Hi & -> & s & ->). right; left. exists s. split; [reflexivity|]. simpl. auto 10.
+Qed.
+Print Assumptions C05_leafwise_fieldname_mode.
